@@ -1,4 +1,164 @@
-(* C04 — statements are being added; see DESIGN.md section 7. *)
-From XSG.Model Require Import Strings.
-Example C04_placeholder : True. Proof. exact I. Qed.
-Print Assumptions C04_placeholder.
+(* C04 — names are unique and do not shadow.
+   "Every struct name ... is defined exactly once and does not shadow String, Option or Vec
+    [nor is Self]; every field name is ... unique within its struct; every field type is String
+    or a struct defined in the same output, each non-root struct being used by exactly one field."
+   * the renaming loop of create_unused_name / compute_struct_names always exits with an unused
+     name (C07_render_loop_exits — this is also the loop C07's "rendering returns" relies on);
+   * the identifiers of the fields of every struct are pairwise different (C04_field_idents);
+   * the struct names of one output are pairwise different (C04_struct_names_unique), none is
+     Self / String / Option / Vec (C04_struct_names_not_reserved), every one was entered in the
+     name table (C04_struct_names_from_table);
+   * the struct names used as field types are, as a multiset, exactly the names of the structs
+     after the root (C04_types), a child's field has the name of the struct rendered for that
+     child (C04_types_local), every field type is String or a struct of the output
+     (C04_types_defined); with unique names every non-root struct is therefore the type of
+     exactly one field and the root of none (C04_struct_used_once).
+   `Uniq e` (ElementProofs): sibling names and attribute names are pairwise different at every
+   node — the invariant of every tree built by the parser / the public operations (C03, C11, C16).
+   It is necessary: see C04_field_idents_needs_Uniq, C04_struct_names_needs_Uniq.
+   The legality of the individual names (identifier characters, keywords) is in C04legal.v.
+   Only statements; every proof is `exact <lemma of Proofs/IdentProofs.v, StructTableProofs.v>`. *)
+From Coq Require Import String Permutation.
+From XSG.Model Require Import Strings Convert Necessity Element Render.
+From XSG.Proofs Require Import ElementProofs RenderProofs IdentProofs StructTableProofs.
+Local Open Scope list_scope.
+
+(* ---------- the renaming loop (serves C07 as well) ---------- *)
+Theorem C07_render_loop_exits : forall name sep reserved,
+  ~ In (unused_loop (S (List.length reserved)) 0 name sep reserved) reserved.
+Proof. exact unused_loop_fresh. Qed.
+
+Theorem C04_create_unused_name : forall r name t,
+  let '(u, r') := create_unused_name r name t in ~ In u r /\ r' = r ++ [u].
+Proof. exact create_unused_name_fresh. Qed.
+
+(* decimal suffixes of different counters are different *)
+Theorem C04_dec_injective : forall i j, dec i = dec j -> i = j.
+Proof. exact dec_inj. Qed.
+
+(* ---------- field identifiers ---------- *)
+Theorem C04_id_new_values_distinct : forall e, NoDup (map snd (id_new e)).
+Proof. exact id_new_values_nodup. Qed.
+
+Theorem C04_field_idents : forall o e,
+  Uniq e -> Forall (fun d => NoDup (map f_ident (sd_fields d))) (render_abs o e).
+Proof. exact field_idents. Qed.
+
+Theorem C04_field_idents_at : forall o tbl e pth,
+  Uniq e -> Forall (fun d => NoDup (map f_ident (sd_fields d))) (render_abs_at o tbl e pth).
+Proof. exact field_idents_at. Qed.
+
+(* ---------- struct names ---------- *)
+Theorem C04_struct_names_unique : forall o e,
+  Uniq e -> NoDup (map sd_name (render_abs o e)).
+Proof. exact struct_names_unique. Qed.
+
+Theorem C04_struct_names_not_reserved : forall o e,
+  Forall (fun d => ~ In (sd_name d) (map s ["Self"; "String"; "Option"; "Vec"]%string))
+         (render_abs o e).
+Proof. exact struct_names_not_reserved. Qed.
+
+Theorem C04_struct_names_from_table : forall o e,
+  Forall (fun d => In (sd_name d) (map snd (compute_struct_names e (compute_name_hints e))))
+         (render_abs o e).
+Proof. exact struct_names_from_table. Qed.
+
+(* ---------- field types ---------- *)
+Theorem C04_types : forall o e,
+  Permutation
+    (flat_map (fun d => flat_map (fun f => match f_ty f with TyStruct n => [n] | TyString => [] end)
+                                 (sd_fields d))
+              (render_abs o e))
+    (map sd_name (tl (render_abs o e))).
+Proof. exact types_refs. Qed.
+
+Theorem C04_types_local : forall o tbl m pth e c d0,
+  f_ty (child_field tbl m (pth ++ [ename e]) c)
+  = if contains_only_text (snd c) then TyString
+    else TyStruct (sd_name (hd d0 (render_abs_at o tbl (snd c) (pth ++ [ename e])))).
+Proof. exact child_field_type. Qed.
+
+Theorem C04_types_defined : forall o e d f,
+  In d (render_abs o e) -> In f (sd_fields d) ->
+  f_ty f = TyString \/
+  exists d', In d' (tl (render_abs o e)) /\ f_ty f = TyStruct (sd_name d').
+Proof. exact types_defined. Qed.
+
+Theorem C04_struct_used_once : forall o e d0,
+  Uniq e ->
+  NoDup (flat_map (fun d => flat_map (fun f => match f_ty f with TyStruct n => [n] | TyString => [] end)
+                                     (sd_fields d))
+                  (render_abs o e))
+  /\ ~ In (sd_name (hd d0 (render_abs o e)))
+          (flat_map (fun d => flat_map (fun f => match f_ty f with TyStruct n => [n] | TyString => [] end)
+                                       (sd_fields d))
+                    (render_abs o e)).
+Proof. exact struct_used_once. Qed.
+
+(* ---------- the premises are satisfiable / necessary ---------- *)
+Example C04_loop_example :
+  let reserved := [s "a"; s "a_2"; s "a_1"] in
+  unused_loop (S (List.length reserved)) 0 (s "a") [us] reserved = s "a_3"
+  /\ create_unused_name [s "text"; s "k"] (s "k") TAttr = (s "k_attr", [s "text"; s "k"; s "k_attr"]).
+Proof. exact unused_loop_example. Qed.
+
+Example C04_field_idents_example :
+  let c := Elem (s "type") true true 1 [] [] (Some 0%nat) in
+  let e := Elem (s "r") true true 1 [(Mand, s "type"); (Opt, s "text")] [(Mand, c)] None in
+  Uniq e /\
+  map (fun d => map f_ident (sd_fields d)) (render_abs quick_xml_de e)
+  = [[s "r_type_attr"; s "text"; s "text_content"; s "r_type"]].
+Proof. exact field_idents_example. Qed.
+
+Example C04_field_idents_needs_Uniq :
+  let c := Elem (s "a") true true 1 [] [] None in
+  let e := Elem (s "r") false true 1 [] [(Mand, c); (Mand, c)] None in
+  map (fun d => map f_ident (sd_fields d)) (render_abs quick_xml_de e) = [[s "a_1"; s "a_1"]].
+Proof. exact field_idents_needs_Uniq. Qed.
+
+Example C04_struct_names_example :
+  let k := [(Mand, s "k")] in
+  let e := Elem (s "self") false true 1 []
+             [(Mand, Elem (s "Foo") false true 1 k [] (Some 0%nat));
+              (Mand, Elem (s "foo") false true 1 k [] (Some 1%nat));
+              (Opt, Elem (s "string") false true 1 k [] (Some 2%nat))] None in
+  Uniq e /\
+  map sd_name (render_abs quick_xml_de e) = [s "Self1"; s "SelfFoo"; s "SelfFoo1"; s "String1"].
+Proof. exact struct_names_example. Qed.
+
+Example C04_struct_names_needs_Uniq :
+  let c := Elem (s "a") false true 1 [(Mand, s "k")] [] None in
+  let e := Elem (s "r") false true 1 [] [(Mand, c); (Mand, c)] None in
+  map sd_name (render_abs quick_xml_de e) = [s "R"; s "RA1"; s "RA1"].
+Proof. exact struct_names_needs_Uniq. Qed.
+
+Example C04_types_example :
+  let k := [(Mand, s "k")] in
+  let e := Elem (s "r") false true 1 []
+             [(Mand, Elem (s "a") false true 1 k
+                        [(Mand, Elem (s "b") false false 2 k [] (Some 0%nat))] (Some 0%nat));
+              (Opt, Elem (s "t") true true 1 [] [] (Some 1%nat))] None in
+  Uniq e /\
+  struct_refs (render_abs quick_xml_de e) = [s "A"; s "B"] /\
+  map sd_name (render_abs quick_xml_de e) = [s "R"; s "A"; s "B"].
+Proof. exact types_example. Qed.
+
+Print Assumptions C07_render_loop_exits.
+Print Assumptions C04_create_unused_name.
+Print Assumptions C04_dec_injective.
+Print Assumptions C04_id_new_values_distinct.
+Print Assumptions C04_field_idents.
+Print Assumptions C04_field_idents_at.
+Print Assumptions C04_struct_names_unique.
+Print Assumptions C04_struct_names_not_reserved.
+Print Assumptions C04_struct_names_from_table.
+Print Assumptions C04_types.
+Print Assumptions C04_types_local.
+Print Assumptions C04_types_defined.
+Print Assumptions C04_struct_used_once.
+Print Assumptions C04_loop_example.
+Print Assumptions C04_field_idents_example.
+Print Assumptions C04_field_idents_needs_Uniq.
+Print Assumptions C04_struct_names_example.
+Print Assumptions C04_struct_names_needs_Uniq.
+Print Assumptions C04_types_example.
